@@ -44,7 +44,7 @@ def step (st : St) (op impl : List String) : St × List String :=
     let v := match st.aborter with
       | some x =>
         -- a stream the aborting side had already closed ends with EOF, as usual
-        if nat side == 1 - x && !st.abortLost && !st.shutdownOk.contains (nat side) && !st.closes.contains (x, nat si) && !((" ".intercalate impl).splitOn "verif-abort-reason").length ≥ 2 then
+        if nat side == 1 - x && impl.head? != some "short" && impl.head? != some "deadline" && !st.abortLost && !st.shutdownOk.contains (nat side) && !st.closes.contains (x, nat si) && !((" ".intercalate impl).splitOn "verif-abort-reason").length ≥ 2 then
           [s!"[C09] side {side} stream {si}: read failed with `{" ".intercalate impl}` after the peer's Abort; the error does not carry the abort cause"]
         else []
       | none => []
